@@ -783,6 +783,14 @@ class C16(Driver):
             if not wclose:
                 continue
             wc = max(wclose)
+            nwriters = sum(1 for w in tasks.values() if w["role"] == "w" and w["sd"] == t["sd"])
+            if len(wclose) == nwriters and res.outcome in ("ok", "deadlock") and not any(w.get("thread") for w in tasks.values() if w["sd"] == t["sd"]):
+                # every writer has closed: a read that was issued must come back (with the rest of the data or the end)
+                for k, st in enumerate(t["steps"]):
+                    if (t["id"], k) in inv and (t["id"], k) not in ret and st["op"] in ("read", "chunk", "all", "drain"):
+                        V("C16/eof/end-of-stream-never-delivered/kind=%s" % sds[t["sd"]]["kind"],
+                          "task %d step %d (%s) was still suspended at the end of the run although every writer had closed" % (t["id"], k, st["op"]))
+                        break
             for k, st in enumerate(t["steps"]):
                 r_ = ret.get((t["id"], k))
                 if r_ is None or (t["id"], k) not in inv or r_[1][0] not in (":nil", ":eof", ":drained"):
